@@ -203,6 +203,9 @@ class SpecEnv:
             if v is None:
                 raise SpecError(f"spec mentions unbound local {name}")
             return v
+        cl = self.st.env.get("$callee_locals")
+        if cl is not None and name in cl and isinstance(cl[name], V):
+            return cl[name]
         if name in GHOSTS:
             return GhostRef(GHOSTS[name], self)
         if name in self.interp.globals:
@@ -500,7 +503,14 @@ def infer_patterns(vs, body):
                     and x.arg(1).get_id() in ids and not mentions(x.arg(0)) and pattern_safe(x.arg(0)):
                 n = ids[x.arg(1).get_id()]
                 if all(not z3.eq(x, c) for c in cands[n]):
-                    cands[n].append(x)
+                    cands[n].insert(0, x)
+            elif k == z3.Z3_OP_UNINTERPRETED and x.num_args() >= 1 and nm not in ("IntV", "BoolV"):
+                direct = [a for a in x.children() if a.get_id() in ids]
+                others = [a for a in x.children() if a.get_id() not in ids]
+                if len(direct) == 1 and all(not mentions(a) and pattern_safe(a) for a in others):
+                    n = ids[direct[0].get_id()]
+                    if all(not z3.eq(x, c) for c in cands[n]):
+                        cands[n].append(x)
             todo.extend(x.children())
     if any(not c for c in cands):
         return None
@@ -608,6 +618,42 @@ def dict_wf(env, d):
         z3.ForAll([i, j], z3.Implies(z3.And(0 <= i, i < j, j < h.kn), z3.Select(h.karr, i) != z3.Select(h.karr, j))),
         z3.ForAll([i], z3.Implies(z3.And(0 <= i, i < h.kn), z3.Select(h.has, z3.Select(h.karr, i)))),
         z3.ForAll([x], z3.Implies(z3.Select(h.has, x), z3.Exists([i], z3.And(0 <= i, i < h.kn, z3.Select(h.karr, i) == x)))))
+
+
+@ghost()
+def mcall(env, name, obj, *args):
+    """result of calling method `name` on a symbolic object (the uninterpreted function the executor uses)"""
+    ts = [env.to_val(obj)] + [env.to_val(a) for a in args]
+    kind = env.interp.method_disciplines.get(name, "VAL")
+    if kind == "PRED":
+        return z3.Function(f"mcall_{name}", *([T.Val] * len(ts)), T.B)(*ts)
+    return V("sym", t=z3.Function(f"mcall_{name}", *([T.Val] * len(ts)), T.Val)(*ts))
+
+
+@ghost()
+def route_found(env, router, request, off):
+    return z3.Function("route_found", T.Val, T.Val, T.I, T.B)(env.to_val(router), env.to_val(request), env.to_int(off))
+
+
+@ghost()
+def route_h(env, router, request, off):
+    return V("sym", t=z3.Function("route_h", T.Val, T.Val, T.I, T.Val)(env.to_val(router), env.to_val(request), env.to_int(off)))
+
+
+@ghost()
+def route_off(env, router, request, off):
+    return z3.Function("route_off", T.Val, T.Val, T.I, T.I)(env.to_val(router), env.to_val(request), env.to_int(off))
+
+
+@ghost()
+def route_max(env, router):
+    return z3.Function("route_max", T.Val, T.I)(env.to_val(router))
+
+
+@ghost()
+def pair(env, a, b):
+    """the argument tuple (a, b) of a two-argument symbolic call"""
+    return z3.Function("args_2", T.Val, T.Val, T.Val)(env.to_val(a), env.to_val(b))
 
 
 @ghost()
